@@ -63,6 +63,32 @@ func raceConfigs(tier string) []*histCfg {
 	return out
 }
 
+// tableRaceSuites: a table-level call (blind update; close / release) issued at the same time as the answer that
+// ends hand 1, i.e. racing settleGame / continueGame, which run without the engine lock (C12, C07).
+func tableRaceSuites(prefix string, tier string, ops []string, panicsAreDiagnostics bool, mk func(h *hist) []Monitor) []*Suite {
+	bound := 1
+	if tier == "thorough" {
+		bound = 2
+	}
+	var ss []*Suite
+	for _, l := range raceLayouts() {
+		if l.name == "three-allin" && tier == "quick" {
+			continue
+		}
+		for _, op := range ops {
+			hc := &histCfg{
+				name: fmt.Sprintf("race-settle/%s/%s", l.name, op), tcfg: defaultCfg(l.seats), init: l.init, hands: 2,
+				lines: []string{l.line}, decks: []string{l.deck}, finish: []string{"all"}, newStack: 3,
+				race: &raceCfg{nth: l.nth, op: op}, panicsAreDiagnostics: panicsAreDiagnostics,
+			}
+			ss = append(ss, &Suite{Name: prefix + hc.name, Bound: bound, Weight: 20, Run: func(prefix []int) *vrt.Exec {
+				return runHist(prefix, hc, vrt.Config{FineAll: true}, mk)
+			}})
+		}
+	}
+	return ss
+}
+
 // raceSuites builds the suites for one property; mk supplies that property's monitors.
 func raceSuites(prefix string, tier string, panicsAreDiagnostics bool, mk func(h *hist) []Monitor) []*Suite {
 	bound := 1
@@ -115,6 +141,34 @@ func c15RaceSuites(tier string) []*Suite {
 	}
 	return ss
 }
+
+// monStopRace (C07, racing-settlement suites): a close / release issued while hand 1 ends. The life-cycle
+// clause is stated for a table left to itself, so the status automaton does not apply here; what applies is "no
+// hand opens after the table has been closed or released between hands": if the call returned after hand 1's
+// settlement had been published (the table was between hands), no hand 2 may ever be opened.
+type monStopRace struct {
+	baseMon
+	h *hist
+}
+
+func (m *monStopRace) judge(td *TD) *Viol {
+	if !m.h.externalStop {
+		return nil
+	}
+	settledAt := -1
+	for i, s := range td.snaps {
+		st := s.T.State
+		if settledAt < 0 && st.GameCount == 1 && st.Status == pt.TableStateStatus_TableGameSettled {
+			settledAt = i
+		}
+		if st.GameCount >= 2 && st.Status == pt.TableStateStatus_TableGameOpened && settledAt >= 0 && settledAt < m.h.stopRetSeq && i >= m.h.stopRetSeq {
+			return &Viol{Key: "opened-after-stop@racing-settlement", Detail: fmt.Sprintf("%s (the call returned after snapshot #%d; hand 1's settlement was snapshot #%d), yet hand %d was opened (snapshot #%d)", m.h.stopReason, m.h.stopRetSeq, settledAt, st.GameCount, i)}
+		}
+	}
+	return nil
+}
+func (m *monStopRace) Quiescent(td *TD, p Pending) *Viol { return m.judge(td) }
+func (m *monStopRace) End(td *TD) *Viol                  { return m.judge(td) }
 
 // monInvariant: the C03 bookkeeping invariant at every quiescent point.
 type monInvariant struct{ baseMon }
